@@ -718,6 +718,58 @@ theorem cigarIsValidGo_total (c : List CigarOp) (length : Int) : (cigarIsValidGo
   isValidGo_total c c 0 0 length rfl
 
 
+/-! ### ITF-8 / LTF-8 indexing -/
+
+theorem itf8Width_bounds (b0 : UInt8) : 1 ≤ itf8Width b0 ∧ itf8Width b0 ≤ 5 := by
+  unfold itf8Width Hts.Model.Itf8.width
+  repeat' split
+  all_goals omega
+
+theorem ltf8Width_bounds (b0 : UInt8) : 1 ≤ ltf8Width b0 ∧ ltf8Width b0 ≤ 9 := by
+  unfold ltf8Width Hts.Model.Ltf8.width
+  repeat' split
+  all_goals omega
+
+theorem indexAll_total (site : String) (b : Bytes) : ∀ ks : List Nat, (∀ k ∈ ks, k < b.length) →
+    indexAll site b ks = ok () := by
+  intro ks
+  induction ks with
+  | nil => intro _; rfl
+  | cons k ks ih =>
+    intro h
+    unfold indexAll
+    rw [index_of_lt site b k (h k List.mem_cons_self)]
+    exact ih (fun x hx => h x (List.mem_cons_of_mem _ hx))
+
+theorem decodeIdx_total (site : String) (width : UInt8 → Int) (b : Bytes) :
+    (decodeIdx site width b).isPanic = false := by
+  unfold decodeIdx
+  split
+  · rfl
+  · rename_i h0
+    rw [index_of_lt site b 0 (by omega)]
+    simp only
+    split
+    · rfl
+    · rename_i hn
+      rw [indexAll_total site b _ (by intro k hk; simp only [List.mem_range] at hk; omega)]
+      rfl
+
+theorem streamRead_total (site : String) (width : UInt8 → Int) (bufLen : Nat) (s : Bytes)
+    (hw : ∀ b0, 1 ≤ width b0 ∧ width b0 ≤ bufLen) : (streamRead site width bufLen s).isPanic = false := by
+  unfold streamRead
+  split
+  · rfl
+  · rename_i b0 rest
+    simp only
+    have h := hw b0
+    split
+    · rfl
+    · rw [slice_of_le site _ 1 _ (by omega) (by simp only [List.length_replicate]; omega),
+        sliceTo_of_le site _ _ (by simp only [List.length_replicate]; omega)]
+      simp only
+      split <;> rfl
+
 end Hts.Model.Decoders
 
 /-! ### totality of the coordinate accessors of Hts.Model.Coord (after the repair of `Consumes`) -/
